@@ -266,13 +266,13 @@ func (mT *provider) retain(obj vltypes.RetainObject) {
 	switch t := obj.(type) {
 	case *mqttp.Publish:
 		// [MQTT-3.3.1-10]
-		// [MQTT-3.3.1-7]
-		if len(t.Payload()) == 0 || t.QoS() == mqttp.QoS0 {
+		if len(t.Payload()) == 0 {
 			_ = mT.retainRemove(obj.Topic())
-			if len(t.Payload()) == 0 {
-				insert = false
-			}
+			insert = false
 		}
+		// [MQTT-3.3.1-7] a QoS 0 message discards what was retained for the topic: retainInsert stores
+		// it over the old one in one step. Removing first would unlink the node, and the searches,
+		// which take no lock, would find the topic without a retained message until it is back
 	}
 
 	if insert {
